@@ -325,3 +325,29 @@ def c07_two_schemas(k: int) -> bool:
         elif r.get("data") is not None or not r.get("errors") or TWO_LOG:
             return verdict(False)
     return verdict(True)
+
+
+# ---- an invalid document is refused whatever was refused before it in the process (validator objects are process-wide) ------------------------
+HIST_FIRST = ["{ ...F } fragment F on Query { a ...F }", "{ ...F } fragment F on Query { ...G } fragment G on Query { ...H } fragment H on Query { a ...F }",
+              "{ nope }", "query Q($v: Int, $v: Int) { arg(i: $v) }", "subscription S { t1 t2 }"]
+HIST_SECOND = ["{ arg(zz: 2) }", "{ a @skip(if: true) @skip(if: false) }", "{ a { x } }", "{ q { nope } }", "{ req }", "{ ...F } fragment F on Query { a } fragment G on Query { b }",
+               "query Q($v: Int) { a }", "{ arg(i: $u) }", "{ node { n } }", "{ a } { b }", "{ arg(i: \"s\") }", "{ ...F } fragment F on Query { b ...F }", "mutation { set(v: 1) nope }"]
+
+
+@obligation(tier="quick", timeout=60, shards=[{"first": f, "second": s_} for f in range(len(HIST_FIRST)) for s_ in range(len(HIST_SECOND))],
+            quick_shards=[i for i, (f, s_) in enumerate((f, s_) for f in range(len(HIST_FIRST)) for s_ in range(len(HIST_SECOND))) if f in (0, 1) or s_ in (0, 4)],
+            samples=[{"v": 1}, {"v": None}],
+            symbolic=["v: Optional[int] — the variable value sent with both requests"],
+            selectors=["shard: a first refused document (2 fragment cycles, unknown field, duplicate variable, two subscription roots) and a second rule-breaking "
+                       "document of another rule (13) — one fresh process per pair"],
+            bounds="5 x 13 ordered pairs",
+            note="after a request was refused (a fragment cycle in particular: the rule that aborts validation), a different rule-breaking document is still refused and nothing of it runs")
+def c07_history(v: Optional[int]) -> bool:
+    """
+    post: _
+    """
+    sh = shard()
+    first = HIST_FIRST[sh["first"]]; second = HIST_SECOND[sh["second"]]
+    if not expect_refused(first, {"v": v}):
+        return verdict(False)
+    return verdict(expect_refused(second, {"v": v}))
